@@ -17,7 +17,7 @@ def run(ctx):
                 "(3 runs x 3 lock objects, concurrent batches, crash-timeout boundaries 119/120/121 s) on the real "
                 "SqliteRunLifecycleLock vs M-Lifecycle; distinct key = scenario signature / (op kinds, results)")
     ctx.prove()
-    run_inprocess(ctx, "C26", ctx.n(66, 3000), THEOREMS,
+    run_inprocess(ctx, "C26", ctx.n(66, 2500), THEOREMS,
                   need=(("reloads_by_startup", 1), ("startup_races", 1), ("self_sent", 5)))
 
     # ---- DBOS lifecycle lock: real SqliteRunLifecycleLock vs M-Lifecycle
@@ -25,7 +25,7 @@ def run(ctx):
     rng = random.Random(ctx.seed * 17 + 3)
     d = os.path.join(ctx.scratch, "lc")
     os.makedirs(d, exist_ok=True)
-    n = ctx.n(60, 6000)
+    n = ctx.n(60, 3000)
     exprs, metas, fails = [], [], []
     cov = dict(release_wins=0, resume_wins=0, takeovers=0, refused_takeovers=0, concurrent_batches=0, no_row_release=0)
     for k in range(n):
